@@ -717,7 +717,7 @@ fn main() {
         cx.class = 0;
         for _ in 0..8 {
             let a = *rng.pick(&ext);
-            let b = match rng.below(5) { 0 => *rng.pick(&ext), 1 => rng.below(4), 2 => u64::MAX / a.max(1) + rng.below(2), 3 => a.wrapping_add(rng.below(3)).wrapping_sub(1), _ => rng.next() >> rng.below(64) };
+            let b = match rng.below(5) { 0 => *rng.pick(&ext), 1 => rng.below(4), 2 => (u64::MAX / a.max(1)).saturating_add(rng.below(2)), 3 => a.wrapping_add(rng.below(3)).wrapping_sub(1), _ => rng.next() >> rng.below(64) };
             cx.stake_ops(a, b);
         }
         let c = cx.class;
